@@ -350,7 +350,8 @@ impl Auth {
         let (property_length, props) = if reason_code_buf.is_some() && cursor < data.len() {
             let (props, consumed) = Properties::parse(&data[cursor..])?;
             cursor += consumed;
-            let prop_len = VariableByteInteger::from_u32(props.size() as u32).unwrap();
+            let prop_len = VariableByteInteger::from_len(props.size())
+                .map_err(|_| MqttError::MalformedPacket)?;
 
             (Some(prop_len), Some(props))
         } else {
@@ -369,7 +370,8 @@ impl Auth {
 
         let auth = Auth {
             fixed_header: [FixedHeader::Auth.as_u8()],
-            remaining_length: VariableByteInteger::from_u32(remaining_size as u32).unwrap(),
+            remaining_length: VariableByteInteger::from_len(remaining_size)
+                .map_err(|_| MqttError::MalformedPacket)?,
             reason_code_buf,
             property_length,
             props,
